@@ -136,7 +136,7 @@ func c05Call(x *mc.Exec, schema *j.Schema, entry string, payload []byte, gen str
 		case "UnmarshalResource":
 			var r j.Resource
 			r, err = j.UnmarshalResource(payload, schema)
-			present = r != nil && !reflect.ValueOf(r).IsNil()
+			present = r != nil
 			if err == nil && present {
 				bad = conform(schema, r)
 			}
@@ -150,7 +150,9 @@ func c05Call(x *mc.Exec, schema *j.Schema, entry string, payload []byte, gen str
 		case "UnmarshalCollection":
 			var c j.Collection
 			c, err = j.UnmarshalCollection(payload, schema)
-			present = c != nil && !reflect.ValueOf(c).IsNil()
+			// `col != nil` is what a caller tests: a typed nil pointer wrapped in
+			// the interface counts as a result (and panics when used)
+			present = c != nil
 			if err == nil && present {
 				for i := 0; i < c.Len() && bad == ""; i++ {
 					bad = conform(schema, c.At(i))
